@@ -964,6 +964,28 @@ def history_dependent(f):
 def threads_differ(f):
     """C18: on the real crates, threads racing the first use return different bytes (or other bytes than the sequential call)"""
     cfg = f.detail.get('replay_cfg', f.cfg)
+    if cfg.get('steps'):
+        PICK = ('prove', 'verify', 'verify_each', 'gens', 'gi', 'hi', 'g', 'h', 'g_compressed_accessor', 'precomp_units', 'panic')
+        refs = []
+        for st in cfg['steps']:
+            fo = run_replay({'scenario': 'history', 'steps': [st]}, 1)
+            refs.append(_strip_ev({k: fo['steps'][0]['out'].get(k) for k in PICK}) if 'crash' not in fo else None)
+        for rep in range(40):
+            o = run_replay(cfg, 1)
+            if 'crash' in o:
+                return None, o
+            if o.get('differences'):
+                return True, o['differences'][:1]
+            for k, ref in enumerate(refs):
+                if ref is None:
+                    continue
+                gt = o['references'][k]
+                gt = json.loads(gt) if gt and gt.startswith('{') else gt
+                if _strip_ev(gt) != ref:
+                    return True, {'race': rep, 'step': cfg['steps'][k], 'who': 'a racing thread', 'fresh sequential process': json.dumps(ref)[:300], 'got': json.dumps(gt)[:300]}
+                if _strip_ev(o['after'][k]) != ref:
+                    return True, {'race': rep, 'step': cfg['steps'][k], 'who': 'the sequential call after the race', 'fresh sequential process': json.dumps(ref)[:300], 'got': json.dumps(o['after'][k])[:300]}
+        return False, None
     for rep in range(4):
         o = run_replay(cfg, 1)
         if 'crash' in o:
